@@ -11,6 +11,7 @@ BIN = _m.BIN
 RUNMOD = _m.RUNMOD
 FEATURES = getattr(_m, "FEATURES", None)
 FNS = ['pow', 'wrapping_pow', 'overflowing_pow', 'checked_pow', 'saturating_pow']
+NO_ADAPT = True       # the owning property's check widens its own search when its sources change
 BUDGET = 1500          # generated cases kept per run (the owning property runs them all)
 
 
